@@ -91,6 +91,33 @@ fn run(c: &mut Case) {
             c.violation("C09/full-vs-startend/bytes-differ", format!("Full presentation differs from Start/End at byte {}", at), wit(&calls, &base.bytes, &run.bytes, "a: Full vs Start/End"));
         }
     }
+    // (a'') closing by into_inner() is a presentation too: the trailing run of End calls is left out and the masters
+    // still open are closed by into_inner() (flush() first in half of the cases); the bytes must be those of the
+    // explicit Ends (an unknown-size master has no closing bytes, a known-size one gets its size either way)
+    {
+        let mut calls = base_calls.clone();
+        let mut dropped = 0;
+        while matches!(calls.last(), Some(WCall::Write(Item::End(_), _))) {
+            calls.pop();
+            dropped += 1;
+        }
+        if dropped > 0 {
+            if c.rng.chance(1, 2) {
+                calls.push(WCall::Flush);
+            }
+            let run = run_calls(&calls, ScriptedWrite::new());
+            c.eval();
+            c.count("presentations_compared");
+            c.count("closed_by_into_inner_presentations");
+            if !run.all_ok() {
+                let r = run.first_fail().map(|x| x.1.short()).unwrap_or(run.fin.short());
+                c.violation("C09/implicit-close-rejected", format!("the document is accepted with explicit Ends but not when into_inner()/flush() closes the last {} masters: {}", dropped, r), wit(&calls, &base.bytes, &run.bytes, "a'': closed by into_inner"));
+            } else if run.bytes != base.bytes {
+                let at = run.bytes.iter().zip(base.bytes.iter()).position(|(x, y)| x != y).unwrap_or(run.bytes.len().min(base.bytes.len()));
+                c.violation("C09/implicit-close/bytes-differ", format!("closing the last {} masters through into_inner()/flush() gives different bytes than their explicit Ends (first difference at byte {}, {} vs {} bytes)", dropped, at, run.bytes.len(), base.bytes.len()), wit(&calls, &base.bytes, &run.bytes, "a'': closed by into_inner"));
+            }
+        }
+    }
     // (a') an unknown-size master presented as ONE Full item with the unknown-size option (quantifier: every way of
     // collapsing x every per-element option). Reference: Start(unknown), the children, End — the baseline.
     if u > 0 {
